@@ -162,6 +162,9 @@ func snapshotDir(root string) map[string]fileInfo {
 		if err != nil {
 			return nil
 		}
+		if st.Mode()&os.ModeSymlink != 0 {
+			return nil // symbolic links are not regular files of the directory
+		}
 		fi := fileInfo{Mode: st.Mode(), Dir: de.IsDir()}
 		if !de.IsDir() {
 			b, _ := os.ReadFile(p)
